@@ -1,6 +1,7 @@
 package enga
 
 import (
+	"math"
 	"bytes"
 	"encoding/json"
 	"fmt"
@@ -687,6 +688,26 @@ func c15JSONSnaps(c *vkit.Ctx, r *rand.Rand, i int) {
 	in := map[string]any{"sub": "json-through-snaps", "api": api, "document": vkit.Clip(text, 3000), "matchers": specs}
 	whole, input, lo, hi := carve(text)
 	before := append([]byte(nil), whole...)
+	// in one case of six the first matcher is an identity Custom whose callback re-uses the
+	// caller's buffer for something else (a pooled encoder buffer): the call must go on
+	// working on the document it was handed at entry
+	scribbled := false
+	if r.IntN(6) == 0 {
+		if sp, ok := pickPath(r, d, func(p vkit.JPath) bool {
+			k := d.At(p).Kind
+			return gjsonAddressable(p) && (k == "str" || k == "bool")
+		}); ok {
+			ms = append([]match.JSONMatcher{match.Custom(sp.GJSON(), func(v any) (any, error) {
+				for x := lo; x < hi; x++ {
+					whole[x] = '#'
+				}
+				return v, nil
+			})}, ms...)
+			scribbled = true
+			in["callback_overwrites_the_callers_buffer"] = true
+			c.Count("json_snaps_calls_whose_callback_reuses_the_callers_buffer", 1)
+		}
+	}
 	root := vkit.MkScratch("c15")
 	defer os.RemoveAll(root)
 	snaps.VerifSetMode(false, "")
@@ -695,6 +716,12 @@ func c15JSONSnaps(c *vkit.Ctx, r *rand.Rand, i int) {
 	t := vkit.NewT("TestM")
 	cfg := snaps.WithConfig(snaps.Dir(root), snaps.Filename("m"))
 	var stored string
+	if scribbled {
+		copy(before, whole) // the harness itself changes the buffer in this variant
+		for x := lo; x < hi; x++ {
+			before[x] = '#'
+		}
+	}
 	if api == "json" {
 		cfg.MatchJSON(t, input, ms...)
 		ents, _ := vkit.ReadSnapFile(filepath.Join(root, "m.snap"))
@@ -889,9 +916,43 @@ func c15YAMLOverlap(c *vkit.Ctx, r *rand.Rand, i int) {
 	c.Case(vkit.Hash("yo", text, fmt.Sprint(paths), phk), true)
 }
 
+// c15YAMLNonFinite: floats that YAML writes as .inf / -.inf / .nan as placeholders (JSON
+// cannot encode them, so this is YAML only and outside the tree model): the value at the
+// path must decode to that float, every other top-level member must keep its value.
+func c15YAMLNonFinite(c *vkit.Ctx, r *rand.Rand, i int) {
+	d := vkit.YAMLTreeDoc(r, 2)
+	text := vkit.YAMLFromTree(d)
+	if docs, err := vkit.ParseYAMLDocs(text); err != nil || len(docs) != 1 || d.Equal(docs[0], true) != "" {
+		return
+	}
+	key := d.Keys[r.IntN(len(d.Keys))]
+	ph := []float64{math.Inf(1), math.Inf(-1), math.NaN()}[r.IntN(3)]
+	in := map[string]any{"sub": "yaml-non-finite-placeholder", "document": text, "path": "$." + key, "placeholder": fmt.Sprint(ph)}
+	out, errs, ok := yamlApply(c, "", in, func() ([]byte, []match.MatcherError) { return match.Any("$." + key).Placeholder(ph).YAML([]byte(text)) })
+	c.Count("yaml_non_finite_placeholder_applications", 1)
+	if !ok || len(errs) > 0 {
+		return
+	}
+	var got map[string]any
+	if err := goyaml.Unmarshal(out, &got); err != nil {
+		c.Violate("matcher-output-invalid-yaml", "", fmt.Sprintf("Any(%q).Placeholder(%v): %v: %s", "$."+key, ph, err, vkit.Q(string(out))), in)
+		return
+	}
+	f, isF := got[key].(float64)
+	if !isF || !(f == ph || (math.IsNaN(f) && math.IsNaN(ph))) {
+		c.Violate("matcher-changed-other-than-target", "", fmt.Sprintf("Any(%q).Placeholder(%v): the member decodes to %#v; output %s", "$."+key, ph, got[key], vkit.Q(string(out))), in)
+		return
+	}
+	c.Case(vkit.Hash("ynf", text, key, fmt.Sprint(ph)), true)
+}
+
 func c15YAMLDirect(c *vkit.Ctx, r *rand.Rand, i int) {
 	if i%12 == 6 {
 		c15YAMLOverlap(c, r, i)
+		return
+	}
+	if i%40 == 10 {
+		c15YAMLNonFinite(c, r, i)
 		return
 	}
 	if i%12 == 2 {
